@@ -18,6 +18,7 @@ RUNS = [
 
 def run(ctx):
     x03.obligations(ctx, "SinkInd", RUNS)
+    x03.tlaps(ctx, "SinkInd", "SinkIndProof", ("ASSUME Disciplined == WriteAll = TRUE", "ASSUME Disciplined == WriteAll = FALSE"))
     ctx.cov["rule"] = "proof obligations discharged by Apalache (symbolic: any text length, chunking and sink behaviour)"
 
 
